@@ -38,6 +38,8 @@ type variant struct {
 	// Reduced: member of the reduced variant set (used where the full
 	// product with every error offset would be too large for the tier).
 	Reduced bool
+	// Core: the four-variant subset {T, last byte dropped, first bit flipped, one byte appended}.
+	Core bool
 }
 
 func clone(b []byte) []byte { return append([]byte(nil), b...) }
@@ -50,20 +52,20 @@ func smallVariants(T []byte) []variant {
 	L := len(T)
 	var v []variant
 	for k := 0; k < L; k++ {
-		v = append(v, variant{fmt.Sprintf("trunc:%d", k), T[:k], k == 0 || k == L-1})
+		v = append(v, variant{Name: fmt.Sprintf("trunc:%d", k), Data: T[:k], Reduced: k == 0 || k == L-1})
 	}
 	for b := 0; b < 8*L; b++ {
 		c := clone(T)
 		c[b/8] ^= 1 << (b % 8)
-		v = append(v, variant{fmt.Sprintf("flip:%d", b), c, b == 0 || b == 4*L || b == 8*L-1})
+		v = append(v, variant{Name: fmt.Sprintf("flip:%d", b), Data: c, Reduced: b == 0 || b == 4*L || b == 8*L-1})
 	}
-	v = append(v, variant{"ext00", append(clone(T), 0x00), true})
-	v = append(v, variant{"ext80", append(clone(T), 0x80), false})
+	v = append(v, variant{Name: "ext00", Data: append(clone(T), 0x00), Reduced: true})
+	v = append(v, variant{Name: "ext80", Data: append(clone(T), 0x80)})
 	for i := 0; i+1 < L; i++ {
 		if T[i] != T[i+1] {
 			c := clone(T)
 			c[i], c[i+1] = c[i+1], c[i]
-			v = append(v, variant{fmt.Sprintf("swap:%d", i), c, i == 0})
+			v = append(v, variant{Name: fmt.Sprintf("swap:%d", i), Data: c, Reduced: i == 0})
 		}
 	}
 	if L >= 3 {
@@ -71,9 +73,15 @@ func smallVariants(T []byte) []variant {
 		for i, j := 0, L-1; i < j; i, j = i+1, j-1 {
 			c[i], c[j] = c[j], c[i]
 		}
-		v = append(v, variant{"rev", c, true})
+		v = append(v, variant{Name: "rev", Data: c, Reduced: true})
 	}
-	v = append(v, variant{"T", T, true})
+	v = append(v, variant{Name: "T", Data: T, Reduced: true})
+	for i := range v {
+		switch v[i].Name {
+		case "T", "flip:0", "ext00", fmt.Sprintf("trunc:%d", L-1):
+			v[i].Core = true
+		}
+	}
 	return v
 }
 
@@ -85,7 +93,9 @@ var refKindsAll = []string{
 	"md5:T", "sha512:O", "foo-0",
 }
 
-func isTKind(kind string) bool { return strings.HasSuffix(kind, ":T") && !strings.HasPrefix(kind, "md5") }
+func isTKind(kind string) bool {
+	return strings.HasSuffix(kind, ":T") && !strings.HasPrefix(kind, "md5")
+}
 
 func hexOf(name string, data []byte) string {
 	switch name {
@@ -205,12 +215,13 @@ func mkReader(mode string, data []byte) io.Reader {
 
 func isErrMode(mode string) bool { return strings.HasPrefix(mode, "err") }
 
-// errModes lists every error-after-k mode over a body of n bytes.
-func errModes(n int) []string {
+// errModes lists every error-after-k mode over a body of n bytes
+// (both = also the variant that returns the last bytes and the error in one call).
+func errModes(n int, both bool) []string {
 	var out []string
 	for k := 0; k <= n; k++ {
 		out = append(out, fmt.Sprintf("err:%d", k))
-		if k > 0 {
+		if k > 0 && both {
 			out = append(out, fmt.Sprintf("errd:%d", k))
 		}
 	}
